@@ -14,6 +14,7 @@ mod verif_c17 {
         h.data()[0]
     }
     fn grid(k: u8) -> f32 { (k as f32) * 0.015625 }
+    const HUE_STEP: u8 = @HUESTEP@;
 
     #[kani::proof]
     #[kani::unwind(5)]
@@ -70,6 +71,7 @@ mod verif_c17 {
     fn k_c17_hue_grid() {
         let in_r: u8 = kani::any(); let in_g: u8 = kani::any(); let in_b: u8 = kani::any();
         kani::assume(in_r <= 64 && in_g <= 64 && in_b <= 64);
+        kani::assume(HUE_STEP == 1 || (in_r % HUE_STEP == 0 && in_g % HUE_STEP == 0 && in_b % HUE_STEP == 0));
         let o = conv(grid(in_r), grid(in_g), grid(in_b));
         let (r, g, b) = (in_r as i32, in_g as i32, in_b as i32);
         let mx = if r >= g && r >= b { r } else if g >= b { g } else { b };
@@ -120,14 +122,14 @@ def replay(ctx, spec, f):
 
 def plan(tier, seed):
     p = Plan()
-    p.modules.append(("src/lib.rs", MOD))
+    p.modules.append(("src/lib.rs", MOD.replace("@HUESTEP@", "1" if tier == "thorough" else "2")))
     mk = lambda n, obl, sym, covers, to=900, **kw: dict(name=n, family="c17", obligation=obl, sym=sym, covers=covers, timeout=to, mem_gb=10, replay=replay, **kw)
     p.harnesses = [
         mk("k_c17_range", "H in [0,360), S in [0,1], L in [0,1] for every pixel of [0,1]^3", "3 components: every f32 in [0,1] (2^90 pixels)", ["red max with green < blue explored", "very dark saturated colour explored"]),
         mk("k_c17_lightness", "L within 1e-6 of (max+min)/2", "3 components: every f32 in [0,1]", ["saturated colour explored"]),
         mk("k_c17_grey", "grey -> (0, 0, grey level) exactly", "grey level: every f32 in [0,1]", []),
         mk("k_c17_saturation_grid", "S within 1e-4 of (max-min)/(1-|2L-1|) when 0.01<=L<=0.99", "components on the fixed-point grid k/64, k=0..64 (65^3 pixels, symbolic)", ["saturated colour explored"], grid=True),
-        mk("k_c17_hue_grid", "H within 0.01 degrees of the sextant formula (circular distance) when max-min >= 1/64", "components on the grid k/64 (65^3 pixels, symbolic)", ["red max with green < blue explored", "blue max explored"], to=1800, grid=True),
+        mk("k_c17_hue_grid", "H within 0.01 degrees of the sextant formula (circular distance) when max-min >= 1/64", "components on the grid k/64 (thorough: 65^3 pixels) resp. k/32 (quick: 33^3 pixels), symbolic", ["red max with green < blue explored", "blue max explored"], to=1800, grid=True),
         mk("k_c17_twin_must_fail", "vacuity twin", "as range", [], expect_fail="vacuity twin"),
     ]
     p.functions = ["Hsl::from(LinearRgb) / lrgb_to_hsl (src/hsl.rs:85)"]
